@@ -5,8 +5,10 @@ RULE = ('no cases of its own: the model functions of the theorems (poly_thick_po
         'draw()) are compared with the implementation by the C07 join suites join_poly_pixels / join_poly_rects (exact order), and the search '
         'p_thick_join (C07_join.py) compares the pixel maps of pixels() and draw() on the implementation for thick polylines and stroked triangles')
 PARTIAL = ['C01_join_triangle_pixels_draw carries the computable hypothesis jt_fused (the first next() of the non-fused triangle::ScanlineIterator '
-           'does not answer None while a later row has lines: only then do pixels() and draw() see different line sequences); it is evaluated by the model '
-           'oracle on every generated triangle (suite join_tri_fused under C07_join.py, never false) and searched on the implementation by p_thick_join '
-           '(pixels() vs draw() pixel maps), but not proved unreachable']
+           'does not answer None while a later row has lines). It is a theorem for stroke width 0 and for the collapsed Inside stroke '
+           '(C01_join_triangle_fused_fill_like) and follows from C19_join_tri_outline_w1 for width 1 / Center; for the remaining strokes it is '
+           'evaluated by the model oracle on every generated triangle (suite join_tri_fused, never false; exhaustive on a 6x6 grid for widths 1..3) '
+           'and searched on the implementation by p_thick_join, but not proved: that needs the top corner of the stroke to lie on a DRAWN edge '
+           'for every join kind, skeleton segments included']
 ASSUMPTIONS = ['C01_join_*_pixels_draw: vertices and corners of the thick segments within +-2^29; input-only forms (_range) for vertices within +-V, '
                'V + 6*width + 8 <= 8191']
